@@ -290,3 +290,128 @@ def field_change_sites(prog, env, crate, ns, fields, sites=None):
             for f in changed:
                 out.setdefault(f, {}).setdefault(site, op)
     return out, n_ops
+
+
+# --------------------------------------------------------------------------- money terms
+
+
+def unwrap_payload(t):
+    while t[0] in ("payload", "trybranch"):
+        t = t[1]
+    return t
+
+
+def is_paid(prog, t, denom_path):
+    """t = Ok payload of cw_utils::must_pay(info, CONFIG.<denom_path>) — the single coin paid with the message."""
+    if t[0] != "payload":
+        return False
+    c = unwrap_payload(t)
+    if c[0] != "call" or c[1] != "cw_utils::must_pay":
+        return False
+    return is_param_of_type(c[2][0], "MessageInfo") and loaded_field(prog, c[2][1], "config", denom_path, "staking")
+
+
+def coin_parts(t):
+    """(amount term, denom term) of a coin-valued term in any of the repo's spellings."""
+    if t[0] == "agg" and t[2] == "Some" and len(t[3]) == 1:
+        t = t[3][0][2]
+    if t[0] == "call" and t[1] == "cosmwasm_std::Coin::new" and len(t[2]) == 2:
+        return t[2][0], t[2][1]
+    if t[0] == "agg" and t[1].endswith("Coin"):
+        return agg_field(t, "amount"), agg_field(t, "denom")
+    return None, None
+
+
+def vec_elems(t):
+    if t[0] == "call" and t[1] == "vec!":
+        return list(t[2])
+    return None
+
+
+def same(a, b):
+    return norm(a) == norm(b)
+
+
+def funds_coin(prog, t, denom_path=("protocol_chain_config", "ibc_token_denom")):
+    """t = info.funds.iter().find(|c| c.denom == CONFIG.<denom_path>).unwrap()  (the coin of that denom sent along)."""
+    if t[0] != "payload":
+        return False
+    c = unwrap_payload(t)
+    if c[0] != "call" or not c[1].endswith("Iterator::find"):
+        return False
+    src, clo = c[2][0], c[2][1]
+    base, path = field_path(src)
+    if not (path == ["funds"] and is_param_of_type(base, "MessageInfo")):
+        return False
+    res = closure_result(prog, clo, params={2: ("elem", "funds")})
+    if res is None or res[0] != "call" or res[1] != "std::cmp::PartialEq::eq":
+        return False
+    a, b = res[2]
+    for x, y in ((a, b), (b, a)):
+        if x == ("field", ("elem", "funds"), "denom") and loaded_field(prog, y, "config", list(denom_path), "staking"):
+            return True
+    return False
+
+
+def state_writes(prog, hctx, env, ns="state", crate="staking"):
+    out = []
+    for op in storage_ops_deep(prog, hctx, env.depth):
+        if op["kind"] == "w" and ns_of(prog, op["args"][0]) == ns and item_crate(op["args"][0]) == crate:
+            out.append((op, write_value_alternatives(prog, op, ns)))
+    return out
+
+
+def transfers(prog, hctx, env):
+    """every MsgTransfer constructed (deep, with parameters bound to the handler's terms)."""
+    out = []
+    for c, path, bi, si, t in aggregates_deep(prog, hctx, lambda adt, var: adt.endswith("transfer::v1::MsgTransfer"), env.depth + 1):
+        amount, denom = coin_parts(agg_field(t, "token") or ("none",))
+        out.append({
+            "term": t, "receiver": agg_field(t, "receiver"), "amount": amount, "denom": denom, "sender": agg_field(t, "sender"),
+            "channel": agg_field(t, "source_channel"), "port": agg_field(t, "source_port"), "timeout": agg_field(t, "timeout_timestamp"),
+            "memo": agg_field(t, "memo"), "path": path, "root_bb": path[0][1] if path else bi, "loc": c.body.loc(bi, si), "ctx": c, "bb": bi,
+        })
+    return out
+
+
+def term_in_all_paths(t, hit, inside=False, _memo=None):
+    """does every phi-resolution of t contain, inside the argument of a message-adding Response
+    builder call, a subterm accepted by `hit`?  (P8 on terms: at a phi all alternatives must)"""
+    from engine.mir import intern
+    if _memo is None:
+        _memo = {}
+        t = intern(t)
+    if not isinstance(t, tuple):
+        return False
+    k = (id(t), inside)
+    if k in _memo:
+        return _memo[k]
+    _memo[k] = False
+    if not t or not isinstance(t[0], str):
+        r = any(term_in_all_paths(x, hit, inside, _memo) for x in t)
+    elif inside and hit(t):
+        r = True
+    elif t[0] == "phi":
+        r = all(term_in_all_paths(a, hit, inside, _memo) for a in t[1])
+    elif t[0] == "call" and t[1].startswith("cosmwasm_std::Response::") and t[1].split("::")[-1] in ("add_message", "add_messages", "add_submessage", "add_submessages"):
+        r = term_in_all_paths(t[2][0], hit, False, _memo) or term_in_all_paths(t[2][1], hit, True, _memo)
+    else:
+        r = any(term_in_all_paths(x, hit, inside, _memo) for x in t[1:] if isinstance(x, tuple))
+    _memo[k] = r
+    return r
+
+
+def response_contains_call_at(hctx, root_bb):
+    """does the result of the call in block root_bb of the handler flow into the Response of every
+    success exit, on every path?  (the SubMsg/CosmosMsg built by that call is what reaches the chain)"""
+    b = hctx.body
+    t = b.blocks[root_bb]["term"]
+    if t["k"] != "call":
+        return False
+    want = norm(hctx.T.call_term(t, root_bb))
+    n = 0
+    for bb, term in success_terms(hctx):
+        n += 1
+        if not term_in_all_paths(term, lambda s: norm(s) == want):
+            return False
+    return n > 0
